@@ -112,6 +112,22 @@ struct OVW
     }
 };
 
+// a constant source container with another element type (short) and the same flag container type
+template <class B>
+struct SrcOV
+{
+    typedef xtl::xoptional_vector<short, std::allocator<short>, xtl::xdynamic_bitset<B>> C;
+    C c;
+    static int val(std::size_t j) { return int(j) * 7 % 8 == 0 ? 7 : 0; }          // 7 0 0 0 ... only values of the alphabet {0,7}
+    static bool flag(std::size_t j) { return j == 1 || j == 2; }                  // - + + -
+    SrcOV() { c.resize(4); for (std::size_t j = 0; j < 4; ++j) { c[j].value() = short(val(j)); c[j].has_value() = flag(j); } }
+    void unchanged(Errs& e) const
+    {
+        for (std::size_t j = 0; j < 4; ++j)
+            if (c.value()[j] != short(val(j)) || bool(c.has_value()[j]) != flag(j)) { e.add("source-modified", "assigning from a proxy of another container changed that container"); return; }
+    }
+};
+
 template <class B>
 void build_ov(vf::Explorer<OVW<B>>& ex, std::size_t S, const std::vector<std::size_t>& sizes, const std::vector<std::size_t>& idx)
 {
@@ -158,6 +174,34 @@ void build_ov(vf::Explorer<OVW<B>>& ex, std::size_t S, const std::vector<std::si
         add("write-arrow", "(begin+" + I + ")->value()=0", [i](W& w, Errs&) { if (i >= w.m.size()) return false; (w.c.begin() + std::ptrdiff_t(i))->value() = 0; w.m[i].first = 0; return true; });
         add("write-storage", "value()[" + I + "]=7", [i](W& w, Errs&) { if (i >= w.m.size()) return false; w.c.value()[i] = 7; w.m[i].first = 7; return true; });
         add("write-storage", "has_value()[" + I + "]=1", [i](W& w, Errs&) { if (i >= w.m.size()) return false; w.c.has_value()[i] = true; w.m[i].second = true; return true; });
+        // whole-element assignment from the proxy of ANOTHER optional container (other element type, other index): both the
+        // value and the flag of exactly position j of the source must land in position i
+        for (std::size_t j = 0; j < 4; ++j)
+        {
+            const std::string J = str(j);
+            add("write-from-proxy", "[" + I + "]=src[" + J + "]", [i, j](W& w, Errs& e) {
+                if (i >= w.m.size()) return false;
+                SrcOV<B> s;
+                w.c[i] = s.c[j];
+                w.m[i] = OE(s.val(j), s.flag(j));
+                s.unchanged(e);
+                return true; });
+            add("write-from-proxy", "*(begin+" + I + ")=*(src.begin+" + J + ")", [i, j](W& w, Errs& e) {
+                if (i >= w.m.size()) return false;
+                SrcOV<B> s;
+                *(w.c.begin() + std::ptrdiff_t(i)) = *(s.c.begin() + std::ptrdiff_t(j));
+                w.m[i] = OE(s.val(j), s.flag(j));
+                s.unchanged(e);
+                return true; });
+            add("write-from-proxy", "[" + I + "]=csrc[" + J + "]", [i, j](W& w, Errs& e) {
+                if (i >= w.m.size()) return false;
+                SrcOV<B> s;
+                const typename SrcOV<B>::C& cs = s.c;
+                w.c[i] = cs[j];
+                w.m[i] = OE(s.val(j), s.flag(j));
+                s.unchanged(e);
+                return true; });
+        }
         add("copy-element", "[" + I + "]=value([0])", [i](W& w, Errs&) { if (i >= w.m.size() || i == 0) return false; xtl::xoptional<int> t = w.c[0]; w.c[i] = t; w.m[i] = w.m[0]; return true; });
     }
     add("write-front", "front()=(7,0)", [](W& w, Errs&) { if (w.m.empty()) return false; w.c.front() = xtl::xoptional<int>(7, false); w.m.front() = OE(7, false); return true; });
